@@ -1,6 +1,6 @@
 (* C18 — lemmas about Model/C18.v; the parts live in Proofs/C18_*.v *)
 From Verif Require Import Base.Common Base.Cstr Gen.Consts_default Gen.AnsiTab Gen.StrTab Model.C18.
-From Verif Require Export Proofs.C18_cmp Proofs.C18_lines Proofs.C18_lines_ev Proofs.C18_ansi Proofs.C18_dbcs Proofs.C18_tok.
+From Verif Require Export Proofs.C18_cmp Proofs.C18_lines Proofs.C18_lines_ev Proofs.C18_ansi Proofs.C18_dbcs Proofs.C18_tok Proofs.C18_env.
 
 (* every helper whose Go code indexes or slices (and so could panic) or loops on a condition (and so could spin)
    returns normally on every input; the remaining helpers are total functions of the model by their type *)
@@ -40,16 +40,26 @@ Proof.
   apply okbad_if; [|right; reflexivity]. destruct s as [|c [|? ?]]; [right|left|right]; reflexivity.
 Qed.
 
-Lemma run_case_status args : okbad (run_case args).
+Lemma run_op_base_status op rest : okbad (run_op_base op rest).
 Proof.
   destruct no_crash as [T1 [T2 [T3 [T4 [T5 T6]]]]]. destruct no_crash_io as [T7 T8].
-  unfold run_case. destruct args as [|g rest]; [right; reflexivity|].
-  destruct g as [|op [|? ?]]; [right; reflexivity| |right; reflexivity].
-  unfold run_op.
+  unfold run_op_base.
   repeat (apply okbad_if;
     [ repeat match goal with |- okbad (match ?l with _ => _ end) => destruct l end;
       first [ left; reflexivity | right; reflexivity | apply okbad_fnv
             | apply okbad_wire; first [apply T1 | apply T2 | apply T3 | apply T4 | apply T5 | apply T6 | apply T7 | apply T8] ]
     | ]).
   right. reflexivity.
+Qed.
+
+Lemma run_case_status args : okbad (run_case args).
+Proof.
+  unfold run_case. destruct args as [|g rest]; [right; reflexivity|].
+  destruct g as [|op [|? ?]]; [right; reflexivity| |right; reflexivity].
+  unfold run_op. apply okbad_if; [|apply okbad_if; [|apply run_op_base_status]].
+  - unfold run_window. destruct rest as [|[|iop [|? ?]] [|ns gs]]; try (right; reflexivity).
+    apply okbad_if; [|right; reflexivity].
+    apply okbad_if; [left; reflexivity|apply run_op_base_status].
+  - unfold run_conc. destruct rest as [|[|g [|r [|? ?]]] gs]; try (right; reflexivity).
+    apply okbad_if; [right; reflexivity|]. destruct (conc_outs _ _); [left|right]; reflexivity.
 Qed.
